@@ -311,11 +311,12 @@ class _R:
         parts = []
         for x in items:
             if isinstance(x, slice): raise Unsupported('np.r_ with slice')
-            a = _to_obj(x)
-            if a.ndim > 1: raise Unsupported('np.r_ with a matrix argument')
-            parts.append(a.reshape(-1))
+            parts.append(_to_obj(x))
         if not parts: return SArray(_np.empty((0,), dtype=object))
-        return SArray(_np.concatenate(parts))
+        if _b.any(a.ndim > 1 for a in parts):
+            # matrices are concatenated along the first axis, as numpy.r_ does
+            return SArray(_np.concatenate([_np.atleast_2d(a) for a in parts], axis=0))
+        return SArray(_np.concatenate([a.reshape(-1) for a in parts]))
 r_ = _R()
 class _C:
     def __getitem__(self, items):
